@@ -37,7 +37,7 @@
 #define MAX_OPS 1024
 #define MAX_EV 16384
 #define MAX_TIMEOUTS 256
-#define FINITE_LIMIT 1000000
+#define FINITE_LIMIT 1000      /* timeouts below this many ms are "short": they must have fired by the end of the drain */
 
 enum { ST_EMPTY = 0, ST_LIVE = 1, ST_VOID = 2 };
 
